@@ -44,7 +44,7 @@ def run_cfg(ctx, p, cfg):
     with ctx.rule("A1", "one snapshot per call", cfg) as r:
         snap, lf = snapshot_adt(p)
         for path in (anchors.LOG_LOG, anchors.LOG_ENABLED, anchors.LOG_FLUSH):
-            f = p.fn(path)
+            f = p.fn_loops(path)
             name = path.rsplit("::", 1)[-1]
             loads = f.calls(anchors.LOAD)
             r.require(len(loads) == 1, "%s:single-load" % name, fn=f, detail="ArcSwap::load sites: %d" % len(loads))
@@ -73,7 +73,7 @@ def run_cfg(ctx, p, cfg):
             other = [c.callee for c in f.calls() if (c.callee or "").startswith("arc_swap::") and c.callee != anchors.LOAD]
             r.require(not other, "%s:no-other-arcswap-access" % name, fn=f, detail="other arc-swap calls: %s" % other)
         # in log(): root, appender table and handler all appear
-        f = p.fn(anchors.LOG_LOG)
+        f = p.fn_loops(anchors.LOG_LOG)
         used = set()
         for b in f.blocks:
             for pl in _block_places(b):
